@@ -69,6 +69,8 @@ def predicate(ctx, optic, case, par, w):
     es = eps_sequence(ctx.quick())
     nsurf = len(ya)
     stop = optic.surface_group.stop_index
+    has_parabola = any(abs(1 + float(getattr(s.geometry, 'k', 0.0))) < 1e-9 and not math.isinf(float(s.geometry.radius))
+                       for s in optic.surface_group.surfaces)
     for kind, yp, up in (('marginal', ya, ua), ('chief', yb, ub)):
         if kind == 'chief' and float(optic.fields.max_y_field) == 0:
             continue
@@ -124,6 +126,13 @@ def predicate(ctx, optic, case, par, w):
                              case, {'eps': es[-1], 'relative_discrepancy': errs[-1]}, finding_key=key)
                     return
                 slope = fit_slope(es, errs, 1e-11)
+                if slope is not None and slope < 1.8 and has_parabola and min(errs) < 1e-6:
+                    # F23: for k = -1 the quadratic (-b +- sqrt d)/(2a) has a = L^2+M^2 -> 0 with the ray slope;
+                    # rounding noise ~ 1e-16/eps^3 takes over before the O(eps^2) regime can be followed
+                    ctx.fail('discrepancy of the real %s-ray %s shrinks at least quadratically (surface %d)'
+                             % (kind, what, j), case, {'slope': slope, 'errors': errs},
+                             finding_key='conic-quadratic-cancellation')
+                    return
                 if slope is not None and slope < 1.8:
                     ctx.fail('discrepancy of the real %s-ray %s shrinks at least quadratically (surface %d)'
                              % (kind, what, j), case, {'slope': slope, 'errors': errs}, finding_key=key)
